@@ -3,14 +3,14 @@
    is SpecParse.load_spec: a recursive-descent parser over the RFC 8949 heads (SpecHead.head_spec):
    definite count, indefinite until break, key/value pairing, one item per tag, chunked strings of
    same-type definite chunks, simple values 20..23 only, nesting within L, no refused allocation. *)
-From CB Require Import Word PStream SpecHead PItem PBuild SpecParse PRun PBuild_proofs PFinal.
+From CB Require Import Word PStream SpecHead PItem PBuild SpecParse PRun PBuild_proofs PFinal PFinal2.
 Local Open Scope N_scope.
 
 (* cbor_load succeeds iff the specification accepts, with the same tree — types, widths, values,
    tag numbers, flavour, chunk boundaries, order — and the same count of bytes read *)
 Theorem C02_accepts_iff : forall L cap buf t n, bytes_ok buf -> len buf < SIZE_MAX ->
   (load L cap buf = LOk t n <-> load_spec L cap buf = LOk t n).
-Proof. intros L cap buf t n Hb Hl. rewrite (load_is_spec_full L cap buf Hb Hl). tauto. Qed.
+Proof. exact load_accepts_iff. Qed.
 Print Assumptions C02_accepts_iff.
 
 Theorem C02_machine_is_spec : forall L cap tl ts,
